@@ -7,6 +7,7 @@ CONSTANTS
   CacheWidths = FALSE
   SharedEqualRecords = FALSE
   ClassLevelOption = FALSE
+  StoreBeforeValidate = FALSE
   Emit = FALSE
   EmitOff = 0
 SPECIFICATION Spec
